@@ -3,6 +3,7 @@ package clus
 import (
 	"context"
 	"sync"
+	"time"
 
 	"github.com/ipfs/ipfs-cluster/api"
 	"github.com/ipfs/ipfs-cluster/monitor/metrics"
@@ -20,6 +21,10 @@ type Mon struct {
 	Published  []api.Metric
 	PublishErr func(n int, m *api.Metric) error // optional script
 	nPub       int
+	// LatestDelay makes the monitor slow to answer: LatestMetrics compiles
+	// its answer and returns it LatestDelay later (fake clock in a bubble),
+	// so a metric can expire between the monitor's check and its use.
+	LatestDelay time.Duration
 }
 
 // NewMon creates an injectable monitor.
@@ -59,7 +64,11 @@ func (m *Mon) PublishMetric(ctx context.Context, mt *api.Metric) error {
 
 // LatestMetrics implements PeerMonitor.
 func (m *Mon) LatestMetrics(ctx context.Context, name string) []*api.Metric {
-	return m.Store.LatestValid(name)
+	l := m.Store.LatestValid(name)
+	if m.LatestDelay > 0 {
+		time.Sleep(m.LatestDelay)
+	}
+	return l
 }
 
 // MetricNames implements PeerMonitor.
